@@ -242,6 +242,26 @@ def gen_cases(rng, tier):
         add("winops", "%s %d %d %s" % (hexs(bs), s0, e, hl), "run_winops %s %d %d %s" % (coq_list(bs), s0, e, ce),
             {"bytes": bs, "s": s0, "e": e, "ops": ops})
 
+    # reader op sequences with Iterator::nth (skip k bits, return the next; also past the end, then go on reading)
+    rn = rng.fork("nthops")
+    for _ in range(250 if tier == "quick" else 4000):
+        bs = rn.bytes(rn.range(0, 5))
+        total = 8 * len(bs)
+        ops = []
+        for _o in range(rn.range(1, 7)):
+            r = rn.below(10)
+            if r < 5:
+                ops.append(("nth", rn.choice([0, 1, 2, 7, 8, 9, 15, 16, max(0, total - 1), total, total + 1, rn.below(total + 3)])))
+            elif r < 7:
+                ops.append(("b",))
+            elif r < 8:
+                ops.append(("2",))
+            else:
+                ops.append(("8",))
+        hl = " ".join("nth:%d" % o[1] if o[0] == "nth" else o[0] for o in ops)
+        ce = "[" + "; ".join("RNth %d" % o[1] if o[0] == "nth" else {"b": "RBit", "2": "RU2", "8": "RU8"}[o[0]] for o in ops) + "]"
+        add("ops", "%s %s" % (hexs(bs), hl), "run_ops %s %s" % (coq_list(bs), ce), {"bytes": bs, "ops": ops})
+
     # collect_bits
     for _ in range(120 if tier == "quick" else 2000):
         bits = rng.bits(rng.below(40))
@@ -360,6 +380,14 @@ def ops_ref(bs, ops, s=0, e=None):
                 pos += 8
                 out += [0, v, pos]
             else:
+                out += [1, pos]
+        elif o[0] == "nth":
+            # Iterator::nth(k): k bits skipped, the next returned; past the end everything is consumed
+            if pos + o[1] < len(q):
+                pos += o[1] + 1
+                out += [0, q[pos - 1], pos]
+            else:
+                pos = len(q)
                 out += [1, pos]
         else:
             ref = dec_py(q[pos:])
